@@ -96,12 +96,12 @@ Definition step (st : srv * Z) (o : yop) : option (srv * Z) :=
   let '(s, now) := st in
   match o with
   | YStore ord cu k a u v dur lease =>
-      Some (set_cache s cu (store (cache_of s cu)
+      Some (set_cache s cu (store_new (cache_of s cu)
               (mk_entry ord k (pol_of (PSome a u v)) (Some (now + dur)) lease)), now)
   | YStoreP ord cu k p dur lease =>
-      Some (set_cache s cu (store (cache_of s cu) (mk_entry ord k (pol_of p) (Some (now + dur)) lease)), now)
+      Some (set_cache s cu (store_new (cache_of s cu) (mk_entry ord k (pol_of p) (Some (now + dur)) lease)), now)
   | YStoreRaw ord cu k p lease =>
-      Some (set_cache s cu (store (cache_of s cu) (mk_entry ord k (pol_of p) None lease)), now)
+      Some (set_cache s cu (store_new (cache_of s cu) (mk_entry ord k (pol_of p) None lease)), now)
   | YResume q want cmd ok rep a u v ef rs kok =>
       match resume_step s now q want cmd ok rep a u v ef rs kok with Some s' => Some (s', now) | None => None end
   | YResumeInv q want cmd ok rep a u v ef rs kok icu iret =>
